@@ -12,8 +12,9 @@ namespace SigHook.HalfLock
 inductive Cmd where
   /-- `read()`, use the pinned value `uses` times, drop the guard -/
   | read (uses : Nat)
-  /-- `write()`, and `store(new)` iff `doStore` -/
-  | write (doStore : Bool)
+  /-- `write()`, and `store(new)` iff `doStore`; if `bomb`, the new value's destructor will panic
+      when it is eventually dropped (user code run by `drop(Box::from_raw(old))`) -/
+  | write (doStore : Bool) (bomb : Bool)
 deriving DecidableEq, Repr
 
 /-- program counter of a thread; every constructor names the *next* operation -/
@@ -26,9 +27,9 @@ inductive Pc where
   /-- holding `p`: `uses` more uses, then `lock.fetch_sub(1)` (ReadGuard::drop) -/
   | rUse (slot : Nat) (p : Nat) (uses : Nat)
   /-- `data.load()` in `write()` -/
-  | wLoad (doStore : Bool)
+  | wLoad (doStore : Bool) (bomb : Bool)
   /-- `Box::new` in `store` -/
-  | wAlloc
+  | wAlloc (bomb : Bool)
   /-- `data.swap(new)` -/
   | wSwap (new : Nat)
   /-- first `update_seen`: `lock[0].load()` -/
@@ -43,8 +44,8 @@ inductive Pc where
   | wLoop1 (old : Nat) (z0 z1 : Bool) (iter : Nat)
   /-- `drop(Box::from_raw(old))` -/
   | wFree (old : Nat)
-  /-- guard drop: unlock the writer mutex -/
-  | wUnlock
+  /-- guard drop: unlock the writer mutex (`panicking`: during unwinding, which poisons it) -/
+  | wUnlock (panicking : Bool)
 deriving DecidableEq, Repr
 
 structure Thread where
@@ -58,6 +59,10 @@ structure Sys where
   lock0 : Nat
   lock1 : Nat
   mutexOwner : Option Nat
+  /-- the writer mutex is poisoned (ignored by `write()`) -/
+  poisoned : Bool
+  /-- snapshots whose destructor panics -/
+  bombs : List Nat
   nextSnap : Nat
   /-- allocated and not yet freed snapshots -/
   live : List Nat
@@ -67,7 +72,7 @@ structure Sys where
 deriving Repr
 
 def Sys.init (scripts : List (List Cmd)) : Sys :=
-  { data := 0, gen := 0, lock0 := 0, lock1 := 0, mutexOwner := none, nextSnap := 1, live := [0],
+  { data := 0, gen := 0, lock0 := 0, lock1 := 0, mutexOwner := none, poisoned := false, bombs := [], nextSnap := 1, live := [0],
     freed := [], threads := scripts.map (fun s => { script := s, pc := .idle }) }
 
 def Sys.lockOf (s : Sys) (slot : Nat) : Nat := if slot = 0 then s.lock0 else s.lock1
@@ -81,8 +86,8 @@ inductive Obs where
   | fetchAdd (loc : String) (old : Nat)
   | fetchSub (loc : String) (old : Nat)
   | swap (loc : String) (new old : Nat)
-  | mutexLock
-  | mutexUnlock
+  | mutexLock (poisoned : Bool)
+  | mutexUnlock (panicking : Bool)
   | alloc (id : Nat)
   | free (id : Nat)
   | spin
@@ -108,10 +113,11 @@ def step (yieldEvery : Nat) (s : Sys) (t : Nat) : Option (Sys × Obs) :=
       | [] => none
       | .read uses :: rest =>
         some (setT s { script := rest, pc := .rInc s.gen uses }, .load "generation" s.gen)
-      | .write st :: rest =>
+      | .write st bomb :: rest =>
         match s.mutexOwner with
         | some _ => none
-        | none => some (setT { s with mutexOwner := some t } { script := rest, pc := .wLoad st }, .mutexLock)
+        | none => some (setT { s with mutexOwner := some t } { script := rest, pc := .wLoad st bomb },
+                        .mutexLock s.poisoned)
     | .rInc g uses =>
       let slot := g % 2
       some (setT (s.setLock slot (s.lockOf slot + 1)) { th with pc := .rData slot uses },
@@ -123,11 +129,12 @@ def step (yieldEvery : Nat) (s : Sys) (t : Nat) : Option (Sys × Obs) :=
     | .rUse slot _ 0 =>
       some (setT (s.setLock slot (s.lockOf slot - 1)) { th with pc := .idle },
             .fetchSub (lockName slot) (s.lockOf slot))
-    | .wLoad st =>
-      some (setT s { th with pc := if st then .wAlloc else .wUnlock }, .load "data" s.data)
-    | .wAlloc =>
+    | .wLoad st bomb =>
+      some (setT s { th with pc := if st then .wAlloc bomb else .wUnlock false }, .load "data" s.data)
+    | .wAlloc bomb =>
       let new := s.nextSnap
-      some (setT { s with nextSnap := new + 1, live := new :: s.live } { th with pc := .wSwap new },
+      some (setT { s with nextSnap := new + 1, live := new :: s.live,
+                          bombs := if bomb then new :: s.bombs else s.bombs } { th with pc := .wSwap new },
             .alloc new)
     | .wSwap new =>
       some (setT { s with data := new } { th with pc := .wSeen0 s.data }, .swap "data" new s.data)
@@ -151,10 +158,13 @@ def step (yieldEvery : Nat) (s : Sys) (t : Nat) : Option (Sys × Obs) :=
       let z1' := s.lock1 == 0
       some (setT s { th with pc := afterLoop old z0 z1' iter }, .load "lock1" s.lock1)
     | .wFree old =>
-      some (setT { s with live := s.live.erase old, freed := (old, t) :: s.freed } { th with pc := .wUnlock },
+      -- the box is released; if the value's destructor panics, the guard is dropped while unwinding
+      some (setT { s with live := s.live.erase old, freed := (old, t) :: s.freed }
+              { th with pc := .wUnlock (s.bombs.contains old) },
             .free old)
-    | .wUnlock =>
-      some (setT { s with mutexOwner := none } { th with pc := .idle }, .mutexUnlock)
+    | .wUnlock panicking =>
+      some (setT { s with mutexOwner := none, poisoned := s.poisoned || panicking } { th with pc := .idle },
+            .mutexUnlock panicking)
 
 /-- reachability by any schedule -/
 inductive Reachable (yieldEvery : Nat) (scripts : List (List Cmd)) : Sys → Prop where
